@@ -212,6 +212,15 @@ def gen_lens(rng, nsurf=None, allow_mirror=True, allow_conic=True, allow_asphere
         ap = ['imageFNO', dyadic(rng, 4, 20, 3)]
     else:
         ap = ['objectNA', dyadic(rng, 0.005, 0.06, 10)]
+    if ap[0] == 'imageFNO':
+        # an F-number aperture turns into EPD = |f2| / FNO: for the nearly afocal lenses a random prescription often is,
+        # that is a beam of metres (launched from kilometres away) through elements of centimetres - every tolerance
+        # of every check is then about conditioning, not about the property.  Such lenses get an EPD aperture.
+        f2 = approx_f2(surfaces)
+        rmin = min([abs(float(su['radius'])) for su in surfaces[1:-1]
+                    if su.get('radius', INF) not in (INF, 'inf') and math.isfinite(float(su['radius']))] or [40.0])
+        if f2 is None or not (0.05 <= abs(f2) / ap[1] <= min(40.0, 0.6 * rmin)):
+            ap = ['EPD', dyadic(rng, 0.5, 8, 4)]
     ft = rng.choice([f for f in field_types if not (f == 'object_height' and not finite_object)] or ['angle'])
     if ft == 'angle':
         ymax = dyadic(rng, 0.5, max_field_deg, 3)
@@ -227,6 +236,29 @@ def gen_lens(rng, nsurf=None, allow_mirror=True, allow_conic=True, allow_asphere
     if not any(w[1] for w in wl):
         wl[0][1] = 1
     return {'surfaces': surfaces, 'aperture': ap, 'field_type': ft, 'fields': fields, 'wavelengths': wl}
+
+
+def approx_f2(surfaces):
+    """rear focal length of the descriptor by a y-nu trace (catalogue glasses taken as n = 1.6): generator use only"""
+    y, nu, n = 1.0, 0.0, 1.0
+    for s in surfaces[1:-1]:
+        R = s.get('radius', INF)
+        c = 0.0 if (R == INF or R == 'inf' or (isinstance(R, float) and math.isinf(R))) else 1.0 / float(R)
+        m = s.get('material', {'kind': 'air'})
+        if m['kind'] == 'mirror':
+            n2 = -n
+        else:
+            mag = 1.0 if m['kind'] == 'air' else float(m.get('n', 1.6))
+            n2 = mag if n > 0 else -mag
+        nu = nu - y * c * (n2 - n)
+        n = n2
+        t = s.get('thickness', 0.0)
+        if t in ('inf', INF) or (isinstance(t, float) and math.isinf(t)):
+            return None
+        y = y + float(t) * nu / n
+    if nu == 0 or not math.isfinite(nu):
+        return None
+    return -1.0 / (nu / n)
 
 
 def sample_classes():
